@@ -159,3 +159,59 @@ def all_back_mutants():
             except AssertionError:
                 pass
     return out
+
+
+# ------------------------------------------------------------------ tree versions (old -> new) for C08 / C12
+
+
+def _mut(base, fn):
+    t = copy.deepcopy(base)
+    fn(t)
+    return t
+
+
+def _cfg(t, name, idx=0):
+    return _find(t, name)[idx][0]
+
+
+def _rm(t, name):
+    n = _cfg(t, name)
+    _replace(t, n, [])
+
+
+VERSIONS = {
+    # id: (base template, mutation)
+    "T01:mut:flipdefault": ("T01", lambda t: _cfg(t, "A").defaults.__setitem__(0, ("n", None))),
+    "T01:mut:defaultcond": ("T01", lambda t: _cfg(t, "B").defaults.__setitem__(0, ("y", "!C"))),
+    "T01:mut:addopt": ("T01", lambda t: t.children.append(Cfg("ZNEW", B, "znew", defaults=[("y", None)]))),
+    "T01:mut:rmopt": ("T01", lambda t: _rm(t, "E") or _cfg(t, "D").selects.clear() or _cfg(t, "Q").depends.__setitem__(0, "P")),
+    "T01:mut:promptless": ("T01", lambda t: setattr(_cfg(t, "G"), "prompt", None)),
+    "T03:mut:default": ("T03", lambda t: _cfg(t, "N").defaults.__setitem__(1, ("20", None))),
+    "T03:mut:range": ("T03", lambda t: _cfg(t, "N").ranges.__setitem__(1, ("LO", "15", None))),
+    "T03:mut:cond": ("T03", lambda t: _cfg(t, "K").defaults.__setitem__(0, ("N", "!WIDE"))),
+    "T03:mut:addopt": ("T03", lambda t: t.children.append(Cfg("NEWI", "int", "newi", defaults=[("9", None)]))),
+    "T05:mut:strdefault": ("T05", lambda t: _cfg(t, "MODE").defaults.__setitem__(1, ('"eco"', None))),
+    "T07:mut:choicedefault": ("T07", lambda t: _find_choice(t, "CH").defaults.__setitem__(1, ("M1", None))),
+    "T04:mut:hexdefault": ("T04", lambda t: _cfg(t, "HX").defaults.__setitem__(0, ("0x30", None))),
+    "T04:mut:floatdefault": ("T04", lambda t: _cfg(t, "FL").defaults.__setitem__(1, ("3.5", None))),
+}
+
+
+def _find_choice(t, name):
+    found = []
+    walk(t.children, lambda n, c: found.append(n) if isinstance(n, Choice) and n.name == name else None)
+    return found[0]
+
+
+_orig_resolve = resolve
+
+
+def resolve(tid):  # noqa: F811
+    if tid in VERSIONS:
+        from . import templates
+
+        base, fn = VERSIONS[tid]
+        t = _mut(templates.get(base), fn)
+        t.id = tid
+        return t
+    return _orig_resolve(tid)
